@@ -27,11 +27,18 @@ def load_util():
 
 
 def derive_table(rep=None):
-    """Returns (list of (name, char, target, line)), map_name).  Raises AnalysisError when the anchors vanished."""
+    """Returns (list of (name, target, line)), map_name, funcs, assigns).  Raises AnalysisError when the anchors vanished.
+    The table is the module-level name bound to <builder>({...literal...}), dict(<builder>(...)) or str.maketrans(...) of one of them;
+    the builder is either the known generator (matched) or a one-expression function that is evaluated on the literal and must
+    give exactly "every comma separated name -> the value"."""
     tree, funcs, assigns = load_util()
     cand = None
     for name, n in assigns.items():
-        b = match_expr('dict(V_mk(E_table))', n.value) or match_expr('str.maketrans(dict(V_mk(E_table)))', n.value)
+        b = None
+        for pat in ('dict(V_mk(E_table))', 'str.maketrans(dict(V_mk(E_table)))', 'V_mk(E_table)', 'str.maketrans(V_mk(E_table))'):
+            b = b or match_expr(pat, n.value)
+        if b and b['V_mk'].id not in funcs:
+            b = None
         if b and isinstance(b['E_table'], ast.Name) and b['E_table'].id in assigns and isinstance(assigns[b['E_table'].id].value, ast.Dict):
             # the literal table bound to a module-level name first; nobody else may write that name
             tname = b['E_table'].id
@@ -45,11 +52,16 @@ def derive_table(rep=None):
         if b and isinstance(b['E_table'], ast.Dict):
             cand = (name, n, b)
     if cand is None:
-        raise AnalysisError('%s: no module-level `X = dict(<generator>({...literal table...}))` found (look-alike table anchor)' % FILE)
+        raise AnalysisError('%s: no module-level `X = [dict(]<builder>({...literal table...})[)]` found (look-alike table anchor)' % FILE)
     name, node, b = cand
     mk = b['V_mk'].id
-    if mk not in funcs:
-        raise AnalysisError('%s: table builder %s is not a module-level function' % (FILE, mk))
+    entries = []
+    table = b['E_table']
+    for k, v in zip(table.keys, table.values):
+        if not (isinstance(k, ast.Constant) and isinstance(k.value, str) and isinstance(v, ast.Constant) and isinstance(v.value, str)):
+            raise AnalysisError('%s:%d look-alike table entry is not a literal' % (FILE, getattr(k, 'lineno', node.lineno)))
+        for nm in k.value.split(','):
+            entries.append((nm, v.value, k.lineno))
     # shape of the builder: every comma separated name is looked up and paired with the value
     body = strip_doc(funcs[mk].body)
     pat = '''
@@ -58,17 +70,28 @@ for V_k, V_v in V_m.items():
         yield (unicodedata.lookup(V_c), V_v)
 '''
     bb = match_stmts(pat, body)
-    if bb is None or bb['V_m'].id != funcs[mk].args.args[0].arg:
-        raise AnalysisError('%s:%d %s() is not the name-list -> (char, value) generator the table rule understands'
-                            % (FILE, funcs[mk].lineno, mk))
-    entries = []
-    table = b['E_table']
-    for k, v in zip(table.keys, table.values):
-        if not (isinstance(k, ast.Constant) and isinstance(k.value, str) and isinstance(v, ast.Constant) and isinstance(v.value, str)):
-            raise AnalysisError('%s:%d look-alike table entry is not a literal' % (FILE, getattr(k, 'lineno', node.lineno)))
-        for nm in k.value.split(','):
-            entries.append((nm, v.value, k.lineno))
-    return entries, name, funcs, assigns
+    if bb is not None and bb['V_m'].id == funcs[mk].args.args[0].arg:
+        return entries, name, funcs, assigns
+    if len(body) == 1 and isinstance(body[0], ast.Return) and body[0].value is not None and len(funcs[mk].args.args) == 1:
+        from ..minieval import ev, Undecidable
+        want = {}
+        ok_names = True
+        for nm, tgt, _line in entries:
+            try:
+                want[unicodedata.lookup(nm)] = tgt
+            except KeyError:
+                ok_names = False
+        if ok_names:
+            try:
+                got = ev(body[0].value, {funcs[mk].args.args[0].arg: ast.literal_eval(table)})
+                got = dict(got)
+            except (Undecidable, TypeError, ValueError) as e:
+                raise AnalysisError('%s:%d %s() cannot be evaluated on the table literal: %s' % (FILE, funcs[mk].lineno, mk, e))
+            if got != want:
+                raise AnalysisError('%s:%d %s() does not turn the table literal into {character of every listed name: value} (%d entries differ)'
+                                    % (FILE, funcs[mk].lineno, mk, len(set(got.items()) ^ set(want.items()))))
+        return entries, name, funcs, assigns
+    raise AnalysisError('%s:%d %s() is not the name-list -> (char, value) builder the table rule understands' % (FILE, funcs[mk].lineno, mk))
 
 
 def charmap():
@@ -92,126 +115,193 @@ def check_pipeline(rep, funcs, mapname, translate_table=None):
 def is_translate_table(mapname):
     tree, funcs, assigns = load_util()
     n = assigns.get(mapname)
-    return n is not None and match_expr('str.maketrans(dict(V_mk(E_table)))', n.value) is not None
+    return n is not None and (match_expr('str.maketrans(dict(V_mk(E_table)))', n.value) is not None or match_expr('str.maketrans(V_mk(E_table))', n.value) is not None)
+
+
+class _Stream:
+    """The characters of clean()'s argument after a sequence of operations."""
+    def __init__(self, ops=(), guarded=None, line=0):
+        self.ops, self.guarded, self.line = tuple(ops), guarded, line
+
+    def then(self, op, line):
+        return _Stream(self.ops + (op,), self.guarded, line)
+
+
+_RAW, _TABLE, _TGET, _DELE, _UNKNOWN = 'raw', 'table', 'table.get', 'deletechars', 'unknown'
 
 
 def _check_pipeline(rep, funcs, mapname, translate_table):
-    """_clean_chars is a 1:1 order preserving map through the table; clean() is
-    total-conversion -> map -> delete, with deletion last."""
-    ok = True
-    cc = None
-    for fname, fn in funcs.items():
-        body = strip_doc(fn.body)
-        if len(body) == 1 and isinstance(body[0], ast.Return) and body[0].value is not None:
-            pats = ["''.join(%s.get(V_x, V_x) for V_x in V_n)" % mapname, "''.join([%s.get(V_x, V_x) for V_x in V_n])" % mapname]
-            if translate_table:
-                # str.translate with str.maketrans(<the same dict>) maps every character through the table and keeps the others
-                pats.append('V_n.translate(%s)' % mapname)
-            for p in pats:
-                b = match_expr(p, body[0].value)
-                if b and fn.args.args and b['V_n'].id == fn.args.args[0].arg:
-                    cc = fname
-    if cc is None:
-        # is the table used at all?
-        users = [f for f, fn in funcs.items() if any(isinstance(x, ast.Name) and x.id == mapname for x in ast.walk(fn))]
-        if not users:
-            rep.fail('TAB.map-1to1', FILE, '_clean_chars', 'no function applies %s' % mapname, 0,
-                     'the look-alike table is never applied')
-            return None
-        fn = funcs[users[0]]
-        rep.fail('TAB.map-1to1', FILE, users[0], src(strip_doc(fn.body)[-1]), fn.lineno,
-                 "the function applying the table is not ''.join(table.get(x, x) for x in number): characters may be dropped, "
-                 'duplicated, reordered or altered beyond the table')
-        return None
-    rep.ok('TAB.map-1to1', '%s:%d %s' % (FILE, funcs[cc].lineno, cc), "''.join(%s.get(x, x) for x in number)" % mapname)
+    """clean() is interpreted over a small domain of values (the raw argument, a stream of characters with the operations applied so
+    far, the table, its bound .get, the deletechars parameter): helpers are followed, generator expressions and joins compose.
+    The result has to be: conversion (inside the catch-all) -> 1:1 map through the table -> deletion of deletechars, nothing else."""
     if 'clean' not in funcs:
         raise AnalysisError('%s: clean() vanished' % FILE)
     fn = funcs['clean']
     num = fn.args.args[0].arg
     dele = fn.args.args[1].arg if len(fn.args.args) > 1 else None
-    tree_ = load_util()[0]
-    # called without a second argument nothing is deleted: the callers that write clean(number) rely on it
     if dele and fn.args.defaults:
         d0 = fn.args.defaults[-1]
         rep.check(isinstance(d0, ast.Constant) and d0.value == '', 'TAB.default-deletes-nothing', FILE, 'clean', '%s=%s' % (dele, src(d0)), fn.lineno,
                   'clean() called without %s deletes %s: the default must be the empty string, callers of clean(number) expect only the look-alike mapping'
                   % (dele, src(d0)), what='clean(number, %s=\'\')' % dele)
-    stage = 'raw'
-    # private helpers of one statement and try/else are read as the statements they stand for
-    body = inline_statement_helpers(tree_, fn, exclude=(cc,))
-    # `return ''.join(x for x in <map>(number) if ...)`: the mapping written inside the final expression is its own stage
-    if body and isinstance(body[-1], ast.Return) and body[-1].value is not None:
-        inner = [c for c in ast.walk(body[-1].value) if isinstance(c, ast.Call) and isinstance(c.func, ast.Name) and c.func.id == cc
-                 and len(c.args) == 1 and src(c.args[0]) == num]
-        if len(inner) == 1:
-            import copy
-            last = copy.deepcopy(body[-1])
-            for par in ast.walk(last):
-                for f_, v_ in ast.iter_fields(par):
-                    if isinstance(v_, ast.Call) and ast.dump(v_) == ast.dump(inner[0]):
-                        setattr(par, f_, ast.Name(id=num, ctx=ast.Load()))
-                    elif isinstance(v_, list):
-                        for i_, x_ in enumerate(v_):
-                            if isinstance(x_, ast.Call) and ast.dump(x_) == ast.dump(inner[0]):
-                                v_[i_] = ast.Name(id=num, ctx=ast.Load())
-            pre_ = ast.copy_location(ast.Assign(targets=[ast.Name(id=num, ctx=ast.Store())], value=inner[0]), body[-1])
-            body = body[:-1] + [ast.fix_missing_locations(pre_), ast.fix_missing_locations(last)]
-    returned = False
-    for st in body:
-        where = '%s:%d clean' % (FILE, st.lineno)
-        if isinstance(st, ast.Try):
-            b = match_stmts("%s = ''.join(V_x for V_x in %s)" % (num, num), st.body)
-            if b is None:
-                b = match_stmts("%s = ''.join(%s)" % (num, num), st.body)
-            catches = False
-            for h in st.handlers:
-                t = None if h.type is None else src(h.type)
-                if t in (None, 'Exception', 'BaseException'):
-                    hb = h.body
-                    if len(hb) == 1 and isinstance(hb[0], ast.Raise) and hb[0].exc is not None and \
-                            src(hb[0].exc).split('(')[0] in ('InvalidFormat', 'ValidationError', 'InvalidLength', 'InvalidComponent'):
-                        catches = True
-            if b is not None and not st.orelse and not st.finalbody:
-                rep.check(catches and stage == 'raw', 'TAB.total-conversion', FILE, 'clean', src(st), st.lineno,
-                          'conversion of the argument to str is not inside `except Exception: raise InvalidFormat()`')
-                stage = 'conv'
-                continue
-            rep.fail('TAB.pipeline', FILE, 'clean', src(st), st.lineno, 'unrecognised try block in clean()')
-            ok = False
-            continue
-        b = match_stmts('%s = %s(%s)' % (num, cc, num), [st])
-        if b is not None:
-            rep.check(stage == 'conv', 'TAB.map-before-delete', FILE, 'clean', src(st), st.lineno,
-                      'look-alike mapping applied at stage %r (must follow the total conversion and precede deletion)' % stage)
-            stage = 'mapped'
-            continue
-        if isinstance(st, ast.Return) and st.value is not None and dele:
-            b = None
-            for p in ("''.join(V_x for V_x in %s if V_x not in %s)", "''.join([V_x for V_x in %s if V_x not in %s])",
-                      "''.join(V_x for V_x in %s if not V_x in %s)"):
-                b = b or match_expr(p % (num, dele), st.value)
-            if b is not None:
-                rep.check(stage == 'mapped', 'TAB.delete-last', FILE, 'clean', src(st), st.lineno,
-                          'deletion runs at stage %r: it must be the last transformation, after the look-alike mapping' % stage)
-                returned = True
-                stage = 'deleted'
-                continue
-            rep.fail('TAB.delete-last', FILE, 'clean', src(st), st.lineno,
-                     "clean() does not return ''.join(x for x in number if x not in deletechars): the result may contain "
-                     'deleted characters or be transformed further')
-            returned = True
-            continue
-        # anything else touching the number is an extra transformation
-        names = {x.id for x in ast.walk(st) if isinstance(x, ast.Name)}
-        if num in names:
-            rep.fail('TAB.pipeline', FILE, 'clean', src(st), st.lineno,
-                     'extra statement on the number inside clean(): only total-conversion, look-alike mapping and deletion may touch it')
-            ok = False
-        else:
-            rep.undecide('TAB.pipeline', where, 'statement does not mention the number: ' + src(st))
-    if not returned:
-        rep.fail('TAB.delete-last', FILE, 'clean', 'return', fn.lineno, 'clean() has no deleting return statement')
-    return cc
+    users = [f for f, f_ in funcs.items() if any(isinstance(x, ast.Name) and x.id == mapname for x in ast.walk(f_))]
+    problems = []
+    mapper = []
+
+    def catches_all(tr):
+        for h in tr.handlers:
+            t = None if h.type is None else src(h.type)
+            if t in (None, 'Exception', 'BaseException') and len(h.body) == 1 and isinstance(h.body[0], ast.Raise) and h.body[0].exc is not None \
+                    and src(h.body[0].exc).split('(')[0] in ('InvalidFormat', 'ValidationError', 'InvalidLength', 'InvalidComponent'):
+                return True
+        return False
+
+    def ev_(node, env, guarded, owner, depth):
+        if isinstance(node, ast.Name):
+            if node.id in env:
+                return env[node.id]
+            if node.id == mapname:
+                return _TABLE
+            return _UNKNOWN
+        if isinstance(node, ast.Attribute) and node.attr == 'get' and ev_(node.value, env, guarded, owner, depth) == _TABLE:
+            return _TGET
+        if isinstance(node, (ast.GeneratorExp, ast.ListComp)):
+            if len(node.generators) != 1 or not isinstance(node.generators[0].target, ast.Name):
+                return _UNKNOWN
+            g = node.generators[0]
+            base = ev_(g.iter, env, guarded, owner, depth)
+            x = g.target.id
+            if base == _RAW:
+                base = _Stream((), None, node.lineno)
+                raw_iter = True
+            else:
+                raw_iter = False
+            if not isinstance(base, _Stream):
+                return _UNKNOWN
+            out = base
+            elt = node.elt
+            env2 = dict(env)
+            env2[x] = 'char'
+            if isinstance(elt, ast.Name) and elt.id == x:
+                if raw_iter:
+                    out = _Stream(('conv',), guarded, node.lineno)
+            elif isinstance(elt, ast.Call) and len(elt.args) == 2 and not elt.keywords and all(isinstance(a, ast.Name) and a.id == x for a in elt.args) \
+                    and ev_(elt.func, env2, guarded, owner, depth) == _TGET:
+                if raw_iter:
+                    out = _Stream(('conv',), guarded, node.lineno)
+                out = out.then('map', node.lineno)
+                mapper.append(owner)
+            elif isinstance(elt, ast.IfExp) and match_expr('%s[%s] if %s in %s else %s' % (mapname, x, x, mapname, x), elt) is not None:
+                if raw_iter:
+                    out = _Stream(('conv',), guarded, node.lineno)
+                out = out.then('map', node.lineno)
+                mapper.append(owner)
+            else:
+                out = out.then('other:' + src(elt)[:40], node.lineno)
+            for c in g.ifs:
+                t = c
+                neg = False
+                if isinstance(t, ast.UnaryOp) and isinstance(t.op, ast.Not):
+                    t, neg = t.operand, True
+                okf = isinstance(t, ast.Compare) and len(t.ops) == 1 and isinstance(t.left, ast.Name) and t.left.id == x \
+                    and ((isinstance(t.ops[0], ast.NotIn) and not neg) or (isinstance(t.ops[0], ast.In) and neg)) \
+                    and ev_(t.comparators[0], env, guarded, owner, depth) == _DELE
+                out = out.then('delete' if okf else 'filter:' + src(c)[:40], node.lineno)
+            return out
+        if isinstance(node, ast.Call):
+            f = node.func
+            if isinstance(f, ast.Attribute) and f.attr == 'join' and isinstance(f.value, ast.Constant) and f.value.value == '' and len(node.args) == 1:
+                v = ev_(node.args[0], env, guarded, owner, depth)
+                if v == _RAW:
+                    return _Stream(('conv',), guarded, node.lineno)
+                return v if isinstance(v, _Stream) else _UNKNOWN
+            if isinstance(f, ast.Attribute) and f.attr == 'translate' and translate_table and len(node.args) == 1 and src(node.args[0]) == mapname:
+                v = ev_(f.value, env, guarded, owner, depth)
+                if isinstance(v, _Stream):
+                    mapper.append(owner)
+                    return v.then('map', node.lineno)
+                return _UNKNOWN
+            if isinstance(f, ast.Name) and f.id in funcs and depth < 4 and not node.keywords:
+                callee = funcs[f.id]
+                params = [a.arg for a in callee.args.args]
+                if len(params) != len(node.args) or callee.args.vararg or callee.args.kwarg:
+                    return _UNKNOWN
+                args = [ev_(a, env, guarded, owner, depth) for a in node.args]
+                return run(callee, dict(zip(params, args)), guarded, depth + 1)
+            if isinstance(f, ast.Attribute):
+                v = ev_(f.value, env, guarded, owner, depth)
+                if isinstance(v, _Stream) or v == _RAW:
+                    base = v if isinstance(v, _Stream) else _Stream((), None, node.lineno)
+                    return base.then('other:.%s()' % f.attr, node.lineno)
+            if isinstance(f, ast.Name) and f.id in ('str', 'list', 'tuple', 'iter'):
+                v = ev_(node.args[0], env, guarded, owner, depth) if len(node.args) == 1 else _UNKNOWN
+                if f.id == 'str' and v == _RAW:
+                    return _Stream(('other:str()',), guarded, node.lineno)
+                return v
+            return _UNKNOWN
+        return _UNKNOWN
+
+    def run(f_, env, guarded, depth):
+        result = [None]
+
+        def block(stmts, guarded):
+            for st in stmts:
+                if isinstance(st, ast.Expr) and isinstance(st.value, ast.Constant):
+                    continue
+                if isinstance(st, ast.Assign) and len(st.targets) == 1 and isinstance(st.targets[0], ast.Name):
+                    env[st.targets[0].id] = ev_(st.value, env, guarded, f_.name, depth)
+                    continue
+                if isinstance(st, ast.Return):
+                    result[0] = ev_(st.value, env, guarded, f_.name, depth) if st.value is not None else _UNKNOWN
+                    return True
+                if isinstance(st, ast.Try):
+                    if st.finalbody:
+                        problems.append((st, 'try/finally in the clean-up pipeline'))
+                    if block(st.body, guarded or catches_all(st)):
+                        return True
+                    if st.orelse and block(st.orelse, guarded):
+                        return True
+                    continue
+                if isinstance(st, ast.Raise):
+                    return True
+                names = {x.id for x in ast.walk(st) if isinstance(x, ast.Name)}
+                if names & {k for k, v in env.items() if isinstance(v, _Stream) or v == _RAW}:
+                    problems.append((st, 'statement on the number that is neither an assignment nor the return'))
+            return False
+        block(strip_doc(f_.body), guarded)
+        return result[0] if result[0] is not None else _UNKNOWN
+    env0 = {num: _RAW}
+    if dele:
+        env0[dele] = _DELE
+    res = run(fn, env0, False, 0)
+    for st, why in problems:
+        rep.fail('TAB.pipeline', FILE, 'clean', src(st)[:120], st.lineno, 'extra statement on the number inside clean(): %s' % why)
+    if not users:
+        rep.fail('TAB.map-1to1', FILE, '_clean_chars', 'no function applies %s' % mapname, 0, 'the look-alike table is never applied')
+        return None
+    if not isinstance(res, _Stream):
+        rep.fail('TAB.pipeline', FILE, 'clean', 'return value of clean()', fn.lineno,
+                 'clean() does not return the joined characters of its argument after conversion, look-alike mapping and deletion (the value could not be '
+                 'followed through the function)')
+        return None
+    ops = list(res.ops)
+    line = res.line or fn.lineno
+    others = [o for o in ops if o.startswith(('other:', 'filter:'))]
+    rep.check(ops[:1] == ['conv'] and res.guarded, 'TAB.total-conversion', FILE, 'clean', 'first operation: %s' % (ops[:1] or ['-'])[0], fn.lineno,
+              'conversion of the argument to str is not inside `except Exception: raise InvalidFormat()`')
+    nmap = ops.count('map')
+    rep.check(nmap == 1 and not others, 'TAB.map-1to1', FILE, (mapper or ['clean'])[0], ' -> '.join(ops), line,
+              "the characters do not pass exactly once through table.get(x, x) (operations: %s): characters may be dropped, duplicated, reordered or altered "
+              'beyond the table' % ' -> '.join(ops), what="''.join(%s.get(x, x) for x in number)" % mapname)
+    if dele:
+        ndel = ops.count('delete')
+        rep.check(ndel == 1 and ops[-1:] == ['delete'], 'TAB.delete-last', FILE, 'clean', ' -> '.join(ops), line,
+                  'deletion of %s is not the single, last operation (operations: %s): the result may contain deleted characters or be transformed further'
+                  % (dele, ' -> '.join(ops)))
+        if 'map' in ops and 'delete' in ops:
+            rep.check(ops.index('map') < ops.index('delete') and ops.index('map') > 0, 'TAB.map-before-delete', FILE, 'clean', ' -> '.join(ops), line,
+                      'the look-alike mapping must follow the total conversion and precede deletion (operations: %s)' % ' -> '.join(ops))
+    return (mapper or [None])[0]
 
 
 def check_input_flow(rep):
@@ -274,15 +364,20 @@ def check_module_maps(rep):
             if not (isinstance(table, dict) and table and all(isinstance(k, str) and len(k) == 1 and isinstance(v, str) for k, v in table.items())):
                 continue
             node = m.assign_nodes.get(name)
-            line = getattr(node, 'lineno', 0)
-            for k, v in sorted(table.items()):
-                dv = unicodedata.decimal(k, None)
-                if ord(k) < 128 or not (len(v) == 1 and v in '0123456789'):
-                    continue
-                n += 1
-                rep.check(dv is not None and dv == int(v), 'TAB.module-map', rel(m.path), name, 'U+%04X %s -> %r' % (ord(k), unicodedata.name(k, '?'), v), line,
-                          '%s[U+%04X %s] is %r, the Unicode decimal value of that character is %r: a number typed with these digits is read as another number'
-                          % (name, ord(k), unicodedata.name(k, '?'), v, dv), what='%s.%s U+%04X -> %s' % (mn, name, ord(k), v))
+            n += _module_map_entries(rep, rel(m.path), mn, name, table, getattr(node, 'lineno', 0))
+    return n
+
+
+def _module_map_entries(rep, relpath, mn, name, table, line):
+    n = 0
+    for k, v in sorted(table.items()):
+        dv = unicodedata.decimal(k, None)
+        if ord(k) < 128 or not (len(v) == 1 and v in '0123456789'):
+            continue
+        n += 1
+        rep.check(dv is not None and dv == int(v), 'TAB.module-map', relpath, name, 'U+%04X %s -> %r' % (ord(k), unicodedata.name(k, '?'), v), line,
+                  '%s[U+%04X %s] is %r, the Unicode decimal value of that character is %r: a number typed with these digits is read as another number'
+                  % (name, ord(k), unicodedata.name(k, '?'), v, dv), what='%s.%s U+%04X -> %s' % (mn, name, ord(k), v))
     return n
 
 
@@ -298,8 +393,12 @@ def check(tier):
                  assumptions=['no monkey-patching of stdnum.util._char_map at run time (C13 checks the writers of module state)'])
     entries, mapname, funcs, assigns = derive_table()
     rep.unit('table entries', len(entries))
-    if check_module_maps(rep) < 10:
-        rep.error('TAB.module-map found fewer than 10 digit entries in module-level character tables (eg.tn confirmed on the reference tree)')
+    check_module_maps(rep)
+    # the rule has to recognise its construct even when no module keeps such a table any more
+    probe = Report('C14', tier)
+    _module_map_entries(probe, 'probe.py', 'stdnum.probe', '_MAP', {'\u0667': '6', '\u0666': '6'}, 1)
+    if len(probe.findings) != 1:
+        rep.error('TAB.module-map no longer recognises its positive example')
     m = {}
     first_line = {}
     for nm, tgt, line in entries:
